@@ -17,12 +17,15 @@ pub assume_specification<I: Iterator>[<core::iter::Enumerate<I> as Iterator>::ne
             None => enum_rest(*old(e)).len() == 0 && enum_rest(*final(e)).len() == 0 && enum_count(*final(e)) == enum_count(*old(e)),
         };
 
-// prophetic view of a caller-supplied source before it is wrapped: the items it will deliver
-pub uninterp spec fn iter_items<I: Iterator>(i: I) -> Seq<I::Item>;
+// prophetic view of a source before it is wrapped: the items it will deliver = vstd's `remaining()`
+#[verifier::prophetic]
+pub open spec fn iter_items<I: Iterator>(i: I) -> Seq<I::Item> { vstd::std_specs::iter::IteratorSpec::remaining(&i) }
+pub open spec fn iter_lawful<I: Iterator>(i: I) -> bool { vstd::std_specs::iter::IteratorSpec::obeys_prophetic_iter_laws(&i) }
 
 // R17: `X.enumerate()` is redirected to this wrapper (body = the original call); Enumerate starts counting at 0
 #[verifier::external_body]
 pub fn verif_enumerate<I: Iterator>(i: I) -> (r: core::iter::Enumerate<I>)
+    requires iter_lawful(i),      // the source is a finite, deterministic stream (vstd's prophetic iterator laws)
     ensures enum_count(r) == 0, enum_rest(r) == iter_items(i),
 {
     i.enumerate()
@@ -35,4 +38,11 @@ pub fn verif_documented_panic() -> (r: bool)
     ensures false,
 {
     panic!("Error: match_kind mismatch")
+}
+
+// trusted fact about Rust slices: a slice never has more than isize::MAX bytes
+#[verifier::external_body]
+pub proof fn axiom_slice_len_bound(s: &[u8])
+    ensures s@.len() <= isize::MAX,
+{
 }
